@@ -17,6 +17,7 @@ import (
 	"encoding/json"
 	"fmt"
 	"os"
+	"strings"
 	"testing"
 
 	"verifharness/common"
@@ -118,9 +119,18 @@ func e2eCase(t *testing.T, c *E2ECase) {
 			run.Sample(map[string]any{"kind": "E", "ops": nops, "events": len(res.Events), "faults": nfail, "index": res.IndexTagged})
 		}
 	}
-	// model input: the per-subject index history is judged by the oracle only;
-	// the model line records the schedule length so that the case is counted.
 	run.Case(id, "E "+fmt.Sprint(len(res.Events)), "E "+fmt.Sprint(len(res.Events)))
+	// correspondence: the exchanges on each referrers tag, as released by the gate,
+	// are a schedule of the Merge transition system of that tag (X line); the model
+	// must accept it and predict every caller's result and the final index
+	if !res.Deadlock {
+		for s := 0; s < c.NSubjects; s++ {
+			if in, obs, ok := xLine(c, res, s); ok {
+				run.Case(run.NewID(), in, obs)
+				run.TracesAgainstImpl++
+			}
+		}
+	}
 	seen := map[string]bool{}
 	for _, f := range fs {
 		if seen[f.sig] {
@@ -136,4 +146,76 @@ func (c *E2ECase) clone() *E2ECase {
 	var d E2ECase
 	json.Unmarshal(js, &d)
 	return &d
+}
+
+// xLine projects an end-to-end run onto one subject: model input and the
+// implementation's observable (results of the callers, final index).
+func xLine(c *E2ECase, res *E2EResult, s int) (string, string, bool) {
+	local := map[int]int{}
+	var specs, rs []string
+	for _, ops := range c.Rounds {
+		for _, o := range ops {
+			if c.Mans[o.Man].Subject != s {
+				continue
+			}
+			local[o.ID] = len(specs)
+			sign := "+"
+			if o.Kind == "delete" {
+				sign = "~"
+			}
+			specs = append(specs, fmt.Sprintf("%s%d:0:0", sign, o.Man+1))
+			rs = append(rs, fmt.Sprintf("%d=%s", len(rs), res.Ops[o.ID].Outcome))
+		}
+	}
+	if len(specs) == 0 {
+		return "", "", false
+	}
+	keyList := func(l []int) string {
+		if l == nil {
+			return "none"
+		}
+		if len(l) == 0 {
+			return "-"
+		}
+		out := make([]string, len(l))
+		for i, k := range l {
+			switch {
+			case k == -1:
+				out[i] = "0"
+			case k < 0:
+				out[i] = "999"
+			default:
+				out[i] = fmt.Sprint(k + 1)
+			}
+		}
+		return strings.Join(out, ",")
+	}
+	var evs []string
+	for _, e := range res.Events {
+		t, ok := local[e.Op]
+		if !ok {
+			continue
+		}
+		f := 0
+		if e.Fail {
+			f = 1
+		}
+		switch e.Class {
+		case "man-put", "man-get":
+			evs = append(evs, fmt.Sprintf("G%d", t))
+		case "idx-get":
+			evs = append(evs, fmt.Sprintf("P%d:%d", t, f))
+		case "idx-put":
+			evs = append(evs, fmt.Sprintf("U%d:%d", t, f))
+		case "idx-del":
+			evs = append(evs, fmt.Sprintf("D%d:%d", t, f))
+		}
+	}
+	sg := 0
+	if c.SkipGC {
+		sg = 1
+	}
+	in := fmt.Sprintf("X %d %s %s %s", sg, keyList(c.PreIndex[s]), strings.Join(specs, ","), strings.Join(evs, " "))
+	obs := fmt.Sprintf("ACC R %s I %s", strings.Join(rs, ","), keyList(res.IndexTagged[s]))
+	return in, obs, true
 }
